@@ -1,6 +1,6 @@
 (* C01 - A successful dump is a structurally sound minidump.  Property theorems only. *)
 From Coq Require Import List NArith Arith.
-From MDW Require Import Bytes MemWriter Writer MiniDump MiniDumpProofs SoundAbs.
+From MDW Require Import Bytes MemWriter Writer MiniDump MiniDumpProofs SoundAbs GenTypes Generated PlanProofs.
 Import ListNotations.
 
 (* (1) The builder model: the reduced whole dump (header slot, thread list with stacks, contexts and
@@ -38,3 +38,12 @@ Theorem C01_predicate_directory : forall a, sound_b a = true ->
   (forall d, In d (ai_dir a) -> dir_zero d = true \/ ((de_rva d + de_size d <= ai_len a)%N /\ de_size d = de_implied d)).
 Proof. exact sound_b_directory. Qed.
 Print Assumptions C01_predicate_directory.
+
+(* (3) The stream plan of generate_dump, regenerated from the CURRENT source: it writes exactly the declared
+   number of directory entries (18), all of distinct stream types. *)
+Theorem C01_plan_entry_count : N.of_nat (length plan_types) = NUM_WRITERS /\ NUM_WRITERS = 18%N.
+Proof. exact plan_entry_count. Qed.
+Print Assumptions C01_plan_entry_count.
+Theorem C01_plan_types_unique : nodup_b plan_types = true.
+Proof. exact plan_types_unique. Qed.
+Print Assumptions C01_plan_types_unique.
